@@ -111,6 +111,19 @@ func init() {
 		HarnessSpec{Name: "VH_C13_signed_documents", Replay: "native", Unwind: 2000},
 		HarnessSpec{Name: "VH_C13_sign_is_pure", Replay: "native", Unwind: 2000})
 	props["C15"].Harnesses = append(props["C15"].Harnesses, HarnessSpec{Name: "VH_C13_sign_is_pure", Replay: "native", Unwind: 2000})
+	reg(&PropSpec{ID: "C17",
+		Harnesses: []HarnessSpec{
+			{Name: "VH_C17_signing_context_race", Replay: "race", Unwind: 2000, QuickOnly: true},
+			{Name: "VH_C17_signing_context_race_deep", Replay: "race", Unwind: 2000, Thorough: true},
+			{Name: "VH_C17_isolation", Replay: "native", Unwind: 2000},
+			{Name: "VH_C17_validation_pure", Replay: "native", Unwind: 400},
+			{Name: "VH_C07_decrypt_cert", Replay: "native"},
+			{Name: "VH_C13_sign_is_pure", Replay: "native", Unwind: 2000},
+			{Name: "VH_C16_auth_body_post", Replay: "native", Unwind: 2000},
+		},
+		Bounds:  map[string]string{"quick": "2 goroutines x one SigningContext() call each on a fresh SP (all slow/fast variant assignments and read-from choices); isolation: two consecutive Metadata / validation / signing / POST-form calls with the first result scribbled over", "thorough": "3 goroutines"},
+		Outside: []string{"thread-safety inside goxmldsig / clockwork / crypto; longer call histories per goroutine; the cert-byte accessors return views of configured slices by design"},
+	})
 	reg(&PropSpec{ID: "C20",
 		Harnesses: []HarnessSpec{
 			{Name: "VH_C20_predecode", Replay: "native", Unwind: 400},
